@@ -249,6 +249,28 @@ fn run_adf(id: &str, lines: &[String], out: &mut String) {
         names.iter().map(|s| hex(s)).collect::<Vec<_>>().join(",")
     )
     .unwrap();
+    {
+        // the dictionary of the parser and the variable container built from it: position of every statement, size,
+        // a label that does not occur; both directions of the container must agree with the name list
+        let dv: Vec<String> = names.iter().map(|s| parser.dict_value(s).map(|i| i.to_string()).unwrap_or_else(|| "none".to_string())).collect();
+        let vc = parser.var_container();
+        let mut ok = vc.variable("no such statement").is_none() && vc.name(Var(names.len())).is_none();
+        for (i, s) in names.iter().enumerate() {
+            ok &= vc.variable(s) == Some(Var(i)) && vc.name(Var(i)).as_deref() == Some(s.as_str());
+            ok &= vc.mappings().read().unwrap().get(s) == Some(&i);
+        }
+        ok &= vc.mappings().read().unwrap().len() == names.len();
+        writeln!(
+            out,
+            "{} dict {} {} {} vc={}",
+            id,
+            parser.dict_size(),
+            if dv.is_empty() { "-".to_string() } else { dv.join(",") },
+            if parser.dict_value("no such statement").is_some() { "some" } else { "none" },
+            ok as u8
+        )
+        .unwrap();
+    }
     let mut bio: Option<adf_bdd::adfbiodivine::Adf> = None;
     if backend != "native" {
         let built = catch_unwind(AssertUnwindSafe(|| {
@@ -311,7 +333,10 @@ fn run_adf(id: &str, lines: &[String], out: &mut String) {
     }
     let built = catch_unwind(AssertUnwindSafe(|| match backend.as_str() {
         "native" => Adf::from_parser(&parser),
+        // the library has two spellings of each conversion: alternate between them (by the length of the text)
+        "hyb0" if text.len() % 2 == 0 => Adf::from_biodivine(bio.as_ref().unwrap()),
         "hyb0" => bio.as_ref().unwrap().hybrid_step_opt(false),
+        _ if text.len() % 2 == 0 => bio.as_ref().unwrap().hybrid_step(),
         _ => bio.as_ref().unwrap().hybrid_step_opt(true),
     }));
     let mut adf = match built {
@@ -336,6 +361,10 @@ fn run_adf(id: &str, lines: &[String], out: &mut String) {
             "grounded" => {
                 let g = adf.grounded();
                 writeln!(out, "{} {} grounded {} {}", id, qid, interp_string(&g), handles_string(&g)).unwrap();
+                // the two printers of the library (through the Adf and through a PrintDictionary taken from it)
+                let p1 = format!("{}", adf.print_interpretation(&g));
+                let p2 = format!("{}", adf.print_dictionary().print_interpretation(&g));
+                writeln!(out, "{} p{} printed {} same={}", id, k, hex(&p1), (p1 == p2) as u8).unwrap();
             }
             "complete" => {
                 let l: Vec<Vec<Term>> = adf.complete().collect();
@@ -389,6 +418,48 @@ fn run_iter(id: &str, kind: &str, rest: &[String], lines: &[String], out: &mut S
             res.iter().map(|x| handles_string(x)).collect::<Vec<_>>().join(" ")
         )
         .unwrap();
+        if limit == usize::MAX {
+            // the rest of the Iterator interface on fresh iterators over the same vector: count, last, nth, size_hint,
+            // and the end of the sequence is final
+            macro_rules! api {
+                ($mk:expr) => {{
+                    let count = $mk.count();
+                    let last = $mk.last();
+                    let k = res.len() / 2;
+                    let nth = $mk.nth(k);
+                    let (lo, hi) = $mk.size_hint();
+                    let hint = lo <= res.len() && hi.map_or(true, |h| res.len() <= h);
+                    let mut it = $mk;
+                    let mut n = 0usize;
+                    while it.next().is_some() {
+                        n += 1;
+                    }
+                    let fused = it.next().is_none() && it.next().is_none() && n == res.len();
+                    // partially consumed iterators: what is left after j steps
+                    let mut hint = hint;
+                    let mut parts: Vec<String> = Vec::new();
+                    for j in [1usize, res.len() / 2, res.len().saturating_sub(1)] {
+                        if j < res.len() {
+                            let mut it = $mk;
+                            for _ in 0..j {
+                                it.next();
+                            }
+                            let (lo, hi) = it.size_hint();
+                            hint &= lo <= res.len() - j && hi.map_or(true, |h| res.len() - j <= h);
+                            parts.push(format!("{}:{}", j, it.count()));
+                        }
+                    }
+                    (count, last, k, nth, hint, fused, parts.join(","))
+                }};
+            }
+            let (count, last, k, nth, hint, fused, parts) = if kind == "ITER2" {
+                api!(TwoValuedInterpretationsIterator::new(&v))
+            } else {
+                api!(ThreeValuedInterpretationsIterator::new(&v))
+            };
+            let hs = |x: &Option<Vec<Term>>| x.as_ref().map(|y| handles_string(y)).unwrap_or_else(|| "-".to_string());
+            writeln!(out, "{} api count={} last={} nth={}:{} hint={} fused={} rest={}", id, count, hs(&last), k, hs(&nth), hint as u8, fused as u8, parts).unwrap();
+        }
     }
 }
 
